@@ -314,10 +314,7 @@ func (cx *Ctx) oracleHistory(rs []JobResult) (bool, string, string, string) {
 		}
 		ro := ref.Res.Outcomes[0]
 		if ro.Hash != o.Hash || ro.Verdict != o.Verdict {
-			c := h.Job.Calls[i]
-			if c.SameAs != nil {
-				c = h.Job.Calls[*c.SameAs]
-			}
+			c := sameAsResolved(h.Job.Calls, i)
 			what := fmt.Sprintf("call %d of a %d-call history, Layout(%s; %s), %s, but the same call alone in a fresh process %s",
 				i, len(h.Job.Calls), edgesText(c.Edges), optsText(c.Opts), describe(o), describe(ro))
 			if o.Full != "" && ro.Full != "" {
